@@ -44,3 +44,16 @@ SPECS["C08"] = {
     "not_covered": ["views over an empty window (end_of_file == 0): the property speaks of non-empty views"],
     "assumptions": ["nesting of views: induction on depth on paper (each proof assumes only the ROF contract of its substream)"],
 }
+
+
+SPECS["C18"] = {
+    "level": "proof",
+    "level_text": "loop-free codecs: lemmas that call the real functions are discharged for EVERY integer input (character tables both ways incl. rejection of every other value, note number <-> (degree, sharp, octave) incl. the AKAI and MIDI offsets); the float tuning codec and the text form of notes are enumerated exhaustively over their whole finite domains on the real code (complete for those domains)",
+    "level_note": "trusted: pyvc engine, z3; the tuning lemma reads floats as exact reals - the IEEE-754 behaviour is what the exhaustive 256-value run executes",
+    "contracts": ["lemma:akai_to_ascii_table", "lemma:akai_to_ascii_table_generic", "lemma:akai_ascii_roundtrip",
+                  "lemma:ascii_akai_roundtrip", "lemma:note_int_roundtrip", "lemma:note_akai_byte_roundtrip",
+                  "lemma:note_midi_byte_roundtrip", "lemma:note_fields", "lemma:tuning_real_roundtrip"],
+    "bounded": [("contracts.codecs", "finite:codecs")],
+    "trusted_base": ["pyvc VC generator and its built-in models", "z3 5.1.0 / cvc5 1.0.3"],
+    "assumptions": ["IntEnum members are their integer values; dict lookups with a symbolic key are case-split over the literal keys"],
+}
